@@ -55,7 +55,7 @@ Definition in_range (dt : dtype) (v : Z) : bool :=
   | DI8 => (-128 <=? v)%Z && (v <=? 127)%Z
   | DI16 => (-32768 <=? v)%Z && (v <=? 32767)%Z
   | DI32 => (-2147483648 <=? v)%Z && (v <=? 2147483647)%Z
-  | DI64 => (-9223372036854775808 <=? v)%Z && (v <=? 9223372036854775807)%Z
+  | DI64 => true                           (* integers are unbounded here: no int64 wrap-around is modelled *)
   | DF16 => (-2048 <=? v)%Z && (v <=? 2048)%Z                         (* integers exactly representable *)
   | DF32 => (-16777216 <=? v)%Z && (v <=? 16777216)%Z
   | DF64 => (-9007199254740992 <=? v)%Z && (v <=? 9007199254740992)%Z
@@ -96,8 +96,7 @@ Definition new_full (t : tens) (s : list nat) (v : Z) : option tens :=
   end.
 
 (* torch.full(size, fill_value, dtype=torch.long): "Creates a tensor of size size filled with fill_value."  (CPU) *)
-Definition full_long (s : list nat) (v : Z) : option tens :=
-  if in_range DI64 v then Some (mkT false DI64 s (repeat v (numel_of s))) else None.
+Definition full_long (s : list nat) (v : Z) : option tens := Some (mkT false DI64 s (repeat v (numel_of s))).
 
 (* Tensor.unsqueeze(dim): "Returns a new tensor with a dimension of size one inserted at the specified position."
    (0 <= dim <= ndim; the row-major content is unchanged) *)
